@@ -66,17 +66,28 @@ impl FromStr for Decimal {
       let (decimal, scale) = if decimal.is_empty() {
         (0, 0)
       } else {
+        ensure!(
+          decimal.bytes().all(|byte| byte.is_ascii_digit()),
+          "invalid digit found in string"
+        );
         let trailing_zeros = decimal.chars().rev().take_while(|c| *c == '0').count();
         let significant_digits = decimal.chars().count() - trailing_zeros;
         let decimal = decimal.parse::<u128>()?
           / 10u128
             .checked_pow(u32::try_from(trailing_zeros).unwrap())
             .context("excessive trailing zeros")?;
-        (decimal, u8::try_from(significant_digits).unwrap())
+        (
+          decimal,
+          u8::try_from(significant_digits).context("excessive precision")?,
+        )
       };
 
       Ok(Self {
-        value: integer * 10u128.pow(u32::from(scale)) + decimal,
+        value: 10u128
+          .checked_pow(u32::from(scale))
+          .and_then(|magnitude| integer.checked_mul(magnitude))
+          .and_then(|integer| integer.checked_add(decimal))
+          .context("amount out of range")?,
         scale,
       })
     } else {
